@@ -31,6 +31,7 @@ class Device:
         self.emitted = []        # (t, line) in emission order (ghost for monitors)
         self.received = []       # (t, line)
         self.dead = False
+        self.feed_free_at = 0
 
     def attach(self, port):
         self.port = port
@@ -80,12 +81,14 @@ class Device:
                 data = data[:room]
         if data:
             self.sent_bytes += len(data)
-            if self.chunker:
-                parts = self.chunker(data)
-                d = 0
+            if self.chunker or self.feed_free_at > sched.S.now:
+                # the link is a byte stream: chunks of successive lines never overtake each other
+                parts = self.chunker(data) if self.chunker else [data]
+                t = max(sched.S.now, self.feed_free_at)
                 for p in parts:
-                    sched.S.at(d, lambda p=p: self.port.feed(p))
-                    d += 200
+                    sched.S.at(t - sched.S.now, lambda p=p: self.port.feed(p))
+                    t += 200
+                self.feed_free_at = t
             else:
                 self.port.feed(data)
         if self.eof_after is not None and self.sent_bytes >= self.eof_after and not self.dead:
